@@ -92,6 +92,8 @@ def _check_case(case):
     f = meta.get('file', '?')
     o = observe.run_validator(text, ack=True)
     out.classes = ['map:' + f, 'faults:%d' % len(meta.get('faults', [])), 'shape:%d/%d/%d' % (meta.get('nisa', 0), meta.get('ngroups', 0), meta.get('nsets', 0))]
+    if meta.get('placement', 'free') != 'free':
+        out.classes.append('fault-placement:' + meta['placement'])
     if meta.get('delims'):
         out.classes.append('non-default-source-delimiters')
     if meta.get('hostile'):
@@ -256,10 +258,10 @@ def run_entry(entry, n, seed, acc, tier, checker=None, **gkw):
 
 
 def shards(tier, seed):
-    return [{'entry': e, 'i': i, 'n': 300 if tier == 'thorough' else 40} for i, e in enumerate(genfaulty.entries())]
+    return [{'entry': e, 'i': i, 'n': 300 if tier == 'thorough' else 60} for i, e in enumerate(genfaulty.entries())]
 
 
 def run_shard(spec, seed, tier):
     acc = core.Acc()
-    run_entry(spec['entry'], spec['n'], seed * 1000 + spec['i'], acc, tier, envelope=.35)
+    run_entry(spec['entry'], spec['n'], seed * 1000 + spec['i'], acc, tier, envelope=.35, by_set=.2, twin_sets=.25)
     return acc
